@@ -44,10 +44,14 @@ func (gw *groupWriter) close() error {
 		// don't print begin/end messages if there's no buffered entries
 		return nil
 	}
-	if _, err := io.WriteString(gw.writer, gw.begin); err != nil {
-		return err
-	}
-	gw.buff.WriteString(gw.end)
-	_, err := io.Copy(gw.writer, &gw.buff)
+	// The begin message, the buffered output and the end message are written
+	// with a single Write, so that the blocks of commands finishing at the
+	// same time can not be interleaved on the shared writer
+	block := make([]byte, 0, len(gw.begin)+gw.buff.Len()+len(gw.end))
+	block = append(block, gw.begin...)
+	block = append(block, gw.buff.Bytes()...)
+	block = append(block, gw.end...)
+	gw.buff.Reset()
+	_, err := gw.writer.Write(block)
 	return err
 }
